@@ -38,6 +38,17 @@ type c18Inner struct {
 	hidden []int
 }
 
+type C18Addr struct {
+	City string
+	Zip  []int
+}
+type C18Deep struct{ *C18Addr }
+type c18Emb struct {
+	Name string
+	*C18Addr
+	Deep *C18Deep
+}
+
 func (s *c18Inner) Label() string     { return "L:" + s.Name }
 func (s c18Inner) TagCount() int      { return len(s.Tags) }
 func (s *c18Inner) AllTags() []string { return s.Tags } // returns the caller's slice itself
@@ -99,6 +110,8 @@ func c18Context() map[string]interface{} {
 		"nested": []interface{}{c18SpareIface([]interface{}{2, 1}, 3), map[string]interface{}{"in": c18SpareIface([]interface{}{"b", "a"}, 2)}},
 		"lol":    [][]int{c18SpareInt([]int{3, 1}, 2), {2}},
 		"lom":    []map[string]interface{}{{"n": 2, "l": c18SpareIface([]interface{}{1}, 3)}, {"n": 1}},
+		"emb":    &c18Emb{Name: "e"},                              // embedded pointers are nil: promoted fields are unreachable
+		"embv":   c18Emb{Name: "v", C18Addr: &C18Addr{City: "C"}}, // and here reachable
 		"a":      "str",
 		"csv":    "c,a,b",
 		"n":      5,
@@ -308,6 +321,9 @@ var c18Fixed = []string{
 	"{% block b %}{% spaceless %}{% import 'lib' as zz6 %}{% endspaceless %}{% endblock %}",
 	"{% verbatim %}{% set a = 1 %}{% endverbatim %}{% spaceless %}{% from 'lib' import f as zz7 %}{% endspaceless %}",
 	"{% macro mm(q) %}{% set a = q %}{{ a }}{% endmacro %}{{ mm('inner') }}{{ _self.mm(n) }}{{ a }}",
+	// promoted fields behind nil embedded pointers: reading them must not allocate into the caller's struct
+	"{{ emb.Name }}|{{ emb.City }}|{{ emb.Zip }}|{{ emb.City is defined ? 'd' : 'u' }}|{{ emb.Deep.City }}|{{ embv.City }}|{{ embv.Zip|length }}|{{ embv.Deep.City }}",
+	"{% for k in [1, 2] %}{{ emb.City|default('none') }}{{ emb['City'] }}{{ emb.C18Addr }}{% endfor %}{{ emb.Deep }}",
 	// an import alias / imported name that is also a key of the caller's context (a map, a list, a scalar)
 	"{% import 'lib' as m %}{{ m.g(1) }}|{% import 'lib' as m2 %}{{ m2.g(2) }}|{% import 'lib' as xs %}{{ xs.g(3) }}|{% import 'lib' as a %}{{ a.g(4) }}",
 	"{% from 'lib' import g as m %}{{ m(1) }}|{% from 'lib' import f as xs, g as n %}{{ n(2) }}",
@@ -486,11 +502,11 @@ func c18SharedRound(e *Env, seq []string, conc bool, expect map[string]RenderRes
 	}
 }
 
-var c18AddrRe = regexp.MustCompile(`0x[0-9a-f]{6,}`)
+var C18AddrRe = regexp.MustCompile(`0x[0-9a-f]{6,}`)
 
 // c18MaskAddr: printed pointers differ between two context instances (that is C03's finding
 // prints-address, not a C18 matter)
-func c18MaskAddr(s string) string { return c18AddrRe.ReplaceAllString(s, "0xADDR") }
+func c18MaskAddr(s string) string { return C18AddrRe.ReplaceAllString(s, "0xADDR") }
 
 // c18Replay re-runs one recorded case (file written by ../check: {"property", "key", "case": <Violation.Replay>}).
 func c18Replay(e *Env) error {
